@@ -585,39 +585,43 @@ Section Machine.
     | Some s' => SNext (set_pc (pc1 + n) s')
     end.
 
+  (* every other macro: take the operands as the macro arm does, run the implementation function, put
+     the result back as the macro arm does *)
+  Definition exec_generic (r : oprow) (s : mstate) : step_res :=
+    match take_operands r (m_stack s) with
+    | inl c => fail c s
+    | inr (args, stk') =>
+        match sem (op_instr r) args (set_stack stk' s) with
+        | SemFail c s' => fail c s'   (* the operands are already gone (pop_many) *)
+        | SemExit o s' => match op_pc r with PcEnd => SHalt o s' | _ => fail EC_MODEL s end
+        | SemJump p s' => match op_pc r with PcJump => SNext (set_pc p s') | _ => fail EC_MODEL s end
+        | SemNone s' =>
+            match op_post r, op_pc r with
+            | PostNone, PcNext => SNext (set_pc (m_pc s + 1) s')
+            | _, _ => fail EC_MODEL s
+            end
+        | SemPush v s' =>
+            match op_pc r with
+            | PcNext =>
+                match op_post r with
+                | PostPushUnchecked => SNext (set_pc (m_pc s + 1) (set_stack (v :: m_stack s') s'))
+                | PostPushChecked =>
+                    match push_checked v s' with
+                    | None => fail OVERFLOW s
+                    | Some s'' => SNext (set_pc (m_pc s + 1) s'')
+                    end
+                | _ => fail EC_MODEL s
+                end
+            | _ => fail EC_MODEL s
+            end
+        end
+    end.
+
   Definition exec_row (r : oprow) (s : mstate) : step_res :=
     match op_kind r with
     | KStackop => exec_stackop r s
     | KPush => exec_push r s
-    | _ =>
-      match take_operands r (m_stack s) with
-      | inl c => fail c s
-      | inr (args, stk') =>
-          match sem (op_instr r) args (set_stack stk' s) with
-          | SemFail c s' => fail c s'   (* the operands are already gone (pop_many) *)
-          | SemExit o s' => match op_pc r with PcEnd => SHalt o s' | _ => fail EC_MODEL s end
-          | SemJump p s' => match op_pc r with PcJump => SNext (set_pc p s') | _ => fail EC_MODEL s end
-          | SemNone s' =>
-              match op_post r, op_pc r with
-              | PostNone, PcNext => SNext (set_pc (m_pc s + 1) s')
-              | _, _ => fail EC_MODEL s
-              end
-          | SemPush v s' =>
-              match op_pc r with
-              | PcNext =>
-                  match op_post r with
-                  | PostPushUnchecked => SNext (set_pc (m_pc s + 1) (set_stack (v :: m_stack s') s'))
-                  | PostPushChecked =>
-                      match push_checked v s' with
-                      | None => fail OVERFLOW s
-                      | Some s'' => SNext (set_pc (m_pc s + 1) s'')
-                      end
-                  | _ => fail EC_MODEL s
-                  end
-              | _ => fail EC_MODEL s
-              end
-          end
-      end
+    | _ => exec_generic r s
     end.
 
   Definition lookup_row (b : Z) : option oprow := find (fun r => op_byte r =? b) opcode_table.
